@@ -7,7 +7,7 @@ internal/core/drand_beacon_control.go:StartFollowChain.                         
 * `loop` is the `for { select … }` of `tryNode`, check by check, `tryNode` the code before it, `sync` the shuffled
   loop of `Sync` over the peers *in the order they are tried* (any list = any permutation), `reSync`,
   `checkPast`, `correctPast` the repair entry points, `followLoop` the `for { … }` of StartFollowChain,
-  `admit` the admission rule of `Run`;
+  `admitReq` the admission rule of `Run`;
 * the store under the sync manager is the C02 stack: participant = appendStore → schemeStore → base
   (`Stack.put`), follow = schemeStore → base (`Stack.schemePut`, StartFollowChain builds no appendStore),
   repair = base store directly (`Stack.rawPut`, the `insecureStore`);
@@ -204,14 +204,14 @@ structure RunState where
   alive : Bool             -- `ctx.Err() == nil`: the context of the current sync has not been cancelled
   deriving DecidableEq, Repr
 
-inductive Admit where
+inductive Admission where
   | filled      -- "request already filled"
   | start       -- cancel the old sync, start a new one
   | ignore      -- a sync is running and made progress recently
   deriving DecidableEq, Repr
 
 /-- the `case request := <-s.newReq` arm; `period`/`now` in seconds -/
-def admit (factor : Nat) (period : Nat) (now : Int) (rs : RunState) (last upTo : Nat) : RunState × Admit :=
+def admitReq (factor : Nat) (period : Nat) (now : Int) (rs : RunState) (last upTo : Nat) : RunState × Admission :=
   if upTo > 0 ∧ last ≥ upTo then (rs, .filled)
   else if rs.alive = false ∨ now > rs.lastRoundTime + (period * factor : Nat) then
     ({ lastRoundTime := now, alive := true }, .start)
